@@ -54,14 +54,22 @@ def datasets():
     from . import randscenes
     import random
     out = []
-    for i, size in enumerate(['tiny', 'tiny', 'mid', 'mid', 'big']):
+    for i, size in enumerate(['tiny', 'mid', 'big']):
         d = randscenes.rand_scene(random.Random(f'C09data:{i}'), size)
         out.append(tracer.build_frame({'rows': d['rows']}))
+    # data whose layering is sensitive to the mixture / slicing parameters: the canonical demo data (a group that
+    # splits) and a two-level group
+    from ampycloud.utils import mocker
+    out.append(mocker.canonical_demo_data())
+    from . import scenes
+    out.append(tracer.build_frame({'rows': scenes.split_desc({'gap': 260, 'old': 300, 'third': 1, 'order': 'shuf', 'lb': 100, 'p': 5}, 3)['rows']}))
     return out
 
 
 PRMS = [None, {'MSA': 3000, 'MAX_HITS_OKTA0': 1, 'BASE_LVL_LOOKBACK_PERC': 50},
-        {'LAYERING_PRMS': {'min_okta_to_split': 1, 'gmm_kwargs': {'scores': 'AIC'}}, 'SLICING_PRMS': {'distance_threshold': 0.1}}]
+        {'LAYERING_PRMS': {'min_okta_to_split': 1, 'gmm_kwargs': {'scores': 'AIC'}}, 'SLICING_PRMS': {'distance_threshold': 0.1}},
+        {'LAYERING_PRMS': {'gmm_kwargs': {'delta_mul_gain': 0.0}}, 'SLICING_PRMS': {'height_scale_kwargs': {'min_range': 8000}}},
+        {'MIN_SEP_VALS': [100, 400], 'GROUPING_PRMS': {'height_scale_range': [50, 60]}, 'LOWESS': {'frac': 0.9}}]
 
 
 def run_session(sess):
